@@ -38,7 +38,7 @@ def make_cases(rng, tier, n):
                 if i % 10 == 4:
                     single = False
         widefiles = sorted(e[1] for e in c["init"] if e[0] == "file" and b"/wide" in e[1])
-        if widefiles and i % 12 == 5:
+        if widefiles and i % 24 == 5:
             # a directory with more plain files than any worker pool; the object of ONE of them (early, middle or late in the
             # listing) is missing locally: push must fail rather than leave a hole on the remote
             ops += [("rmobj", "p" + widefiles[rng.choice([0, len(widefiles) // 2, len(widefiles) - 1])].hex()), ("push", False, [])]
